@@ -363,7 +363,7 @@ def r20d(ck, fb):
         ck.require(ok, 'R20d', key + ':alternation', b.where(), why, 'append[..read_len] -> next_message_vec before next read/return')
 
 
-READ_RX = r'AsyncReadExt::read$|std::io::Read::read$'
+READ_RX = r'AsyncReadExt::read$|std::io::Read::read$|AsyncReadExt::read_buf$'
 
 
 def _on_cycle(b, bb):
@@ -379,6 +379,10 @@ def _data_sized(b, op):
         f = (d['term'].get('f') or {}).get('d', '')
         if f.endswith('vec::from_elem'):
             n = cfg.describe_operand(b, d['term']['args'][1])
+            return n.get('k') != 'const'
+        if f.endswith('::with_capacity') and d['term'].get('args'):
+            # Vec::with_capacity(len) handed to read_buf: the capacity is the number of bytes asked for
+            n = cfg.describe_operand(b, d['term']['args'][0])
             return n.get('k') != 'const'
         if not d['term'].get('args'):
             break
